@@ -7,61 +7,7 @@
 open LegacyModel
 (*INCLUDE conv.inc*)
 
-let ztab = Array.init 256 z_of_int
-let zb i = ztab.(i land 255)
-
-let bytes_of_hex s off =
-  let n = (String.length s - off) / 2 in
-  let rec go i acc = if i < 0 then acc else go (i - 1) (zb (int_of_string ("0x" ^ String.sub s (off + 2 * i) 2)) :: acc) in
-  go (n - 1) []
-
-exception Bad of string
-
-(* "x<hex>" / "b<hex>" / "<hex>" *)
-let str_of_tok t =
-  if String.length t >= 1 && (t.[0] = 'x' || t.[0] = 'b') then bytes_of_hex t 1
-  else raise (Bad ("string token " ^ t))
-let raw_of_tok t = bytes_of_hex t 0
-
-let hex_of_bytes l = String.concat "" (List.map (fun z -> Printf.sprintf "%02x" (int_of_z z land 255)) l)
-let xs l = "x" ^ hex_of_bytes l
-let bs l = "b" ^ hex_of_bytes l
-let zs = string_of_z
-let zi s = z_of_int (int_of_string s)
-
-let split_list s =
-  (* "[a,b,c]" -> ["a";"b";"c"] *)
-  let n = String.length s in
-  if n < 2 || s.[0] <> '[' || s.[n - 1] <> ']' then raise (Bad ("list token " ^ s));
-  let inner = String.sub s 1 (n - 2) in
-  if inner = "" then [] else split_on ',' inner
-
-let rdata_of typ fields =
-  match typ, fields with
-  | 1, [a] -> RD_A (raw_of_tok a)
-  | 28, [a] -> RD_AAAA (raw_of_tok a)
-  | 5, [n] -> RD_CNAME (str_of_tok n)
-  | 2, [n] -> RD_NS (str_of_tok n)
-  | 12, [n] -> RD_PTR (str_of_tok n)
-  | 15, [p; e] -> RD_MX (zi p, str_of_tok e)
-  | 33, [p; w; po; t] -> RD_SRV (zi p, zi w, zi po, str_of_tok t)
-  | 35, [o; p; f; s; re; rp] -> RD_NAPTR (zi o, zi p, str_of_tok f, str_of_tok s, str_of_tok re, str_of_tok rp)
-  | 257, [c; tag; v] -> RD_CAA (zi c, str_of_tok tag, str_of_tok v)
-  | 256, [p; w; t] -> RD_URI (zi p, zi w, str_of_tok t)
-  | 6, [m; r; a; b; c; d; e] -> RD_SOA (str_of_tok m, str_of_tok r, zi a, zi b, zi c, zi d, zi e)
-  | 16, [l] -> RD_TXT (List.map str_of_tok (split_list l))
-  | (1 | 28 | 5 | 2 | 12 | 15 | 33 | 35 | 257 | 256 | 6 | 16), _ -> raise (Bad (Printf.sprintf "fields of type %d" typ))
-  | t, _ -> RD_OTHER (z_of_int t)
-
-(* ---------------- rendering in the format of the C driver ---------------- *)
-let opt_str = function None -> "-" | Some s -> xs s
-let render_view = function
-  | VUntouched -> " host=untouched"
-  | VNull -> " host=-"
-  | VHost v ->
-    Printf.sprintf " host=%s al=[%s] af=%s len=%s ad=[%s]" (opt_str v.hv_name)
-      (String.concat "," (List.map xs v.hv_aliases)) (zs v.hv_addrtype) (zs v.hv_length)
-      (String.concat "," (List.map hex_of_bytes v.hv_addrs))
+(*INCLUDE legacy_rec.inc*)
 
 let render_addr name h t nin (o : addr_obs) =
   let hv = if h = 0 then " host=none" else render_view o.ao_host in
@@ -81,16 +27,6 @@ let r_uri (m : uri_reply) = Printf.sprintf "%s:%s:%s:%s" (zs m.uri_priority) (zs
 let r_soa (m : soa_reply) = Printf.sprintf "%s:%s:%s:%s:%s:%s:%s" (xs m.soa_nsname) (xs m.soa_hostmaster) (zs m.soa_serial) (zs m.soa_refresh) (zs m.soa_retry) (zs m.soa_expire) (zs m.soa_minttl)
 let r_txt (m : txt_ent) = Printf.sprintf "%s:%s:z" (zs m.txt_length) (bs m.txt_txt)
 let r_txtx (m : txt_ent) = Printf.sprintf "%d:%s:%s:z" (if m.txt_record_start then 1 else 0) (zs m.txt_length) (bs m.txt_txt)
-
-(* ---------------- token helpers ---------------- *)
-let kv toks key =
-  let p = key ^ "=" in
-  let n = String.length p in
-  match List.find_opt (fun t -> String.length t >= n && String.sub t 0 n = p) toks with
-  | Some t -> String.sub t n (String.length t - n)
-  | None -> raise (Bad ("missing " ^ key))
-
-let starts s p = String.length s >= String.length p && String.sub s 0 (String.length p) = p
 
 let a4 = List.map zb [1; 2; 3; 4]
 let a6 = List.map zb [0x20; 1; 0xd; 0xb8; 0; 0; 0; 0; 0; 0; 0; 0; 0; 0; 0; 5]
